@@ -16,6 +16,13 @@ CLAIMS = {
         'TLA+ specs (SerfHandlers/SerfReplica/SerfCluster) + TLC exhaustive checks; TLC-simulated schedules replayed on real quiet Serf nodes; TLC trace validation of every step with property monitors on observed state',
         '5 C02',
     ),
+    'C04': (
+        'model_checking',
+        'Two bound models. Intents: the monitors C04_rebroadcast_twice (a join/leave/prune intent is queued again at most once while the member it is about is remembered), C04_merge_rebroadcast (a push/pull merge queues nothing but the local refutation) and C04_foreign_message_queued are checked exhaustively by TLC on spec/SerfReplica.tla and on every step of simulated input histories executed on a real quiet Serf node, the queue contents read synchronously through the real GetBroadcasts after every input. User events and queries: C04_event_rebroadcast_twice, C04_query_rebroadcast_twice and C04_merge_rebroadcast of spec/SerfEvents.tla (gossip, push/pull replay with and without join-ignore, local calls, restarts, every buffer size 1..4, Lamport times at both ends of the 64-bit range) checked exhaustively and on real-node traces the same way.',
+        'Trusts TLC, the overlay accessors and the wire mirror. The retention window is read as: as long as the status time / buffered intent / event-buffer slot that remembers the message is held (intents are forgotten when the member is erased; events until the node restarts). Re-deliveries after the Lamport clock wrapped at 2^64-1 are the recorded C19 finding (tag witnessed_max).',
+        'TLA+ specs (SerfReplica, SerfEvents) + TLC exhaustive checks; TLC-simulated histories replayed on a real quiet Serf node; TLC trace validation with property monitors on observed queues',
+        '5 C04',
+    ),
     'C15': (
         'model_checking',
         'TLC checks the C15 monitors (Stats() failed/left equal the counts in Members(), lists duplicate-free and status-consistent, reap removes exactly the expired failed/left members with one reap event each using the reconnect/tombstone base per list, pruned member gone) exhaustively on the model and on every step of simulated histories run on a real node whose reaper runs every 3ms with per-member expiry chosen through ReconnectTimeoutOverride.',
@@ -93,6 +100,12 @@ def run(ctx, replay=None):
         from families import cluster
         cviol, ccov = cluster.run_agreement(ctx)
         viol += cviol
+    if ctx.prop == "C04" and not replay:
+        # the user-event / query half of C04 (spec/SerfEvents.tla, built by the events family)
+        from families import events
+        eviol, ecov = events.run_c04_events(ctx)
+        viol += eviol
+        ccov = {"events_half": ecov}
     new, known = vlib.classify(ctx.prop, viol)
     nsteps = sum(len(s) for s in scheds)
     kinds = {}
@@ -111,7 +124,12 @@ def run(ctx, replay=None):
         "samples": [scheds[0][:8]] if scheds else [],
     }
     cov.update(ccov)
-    if ccov:
+    if "events_half" in ccov:
+        eh = ccov["events_half"]
+        cov["states"] += eh.get("states", 0)
+        cov["transitions"] += eh.get("transitions", 0)
+        cov["traces_validated_against_impl"] += eh.get("traces_validated_against_impl", 0)
+    if "cluster_model" in ccov:
         cov["states"] += sum(m["states"] for m in ccov["cluster_model"])
         cov["transitions"] += sum(m["transitions"] for m in ccov["cluster_model"])
         cov["traces_validated_against_impl"] += ccov["cluster_traces"]
